@@ -23,14 +23,19 @@ theorem C05_sound_scalar (std : Std) (cfg : Option MetaCfg) (t : Ty) (ht : isSca
   sound_scalar std cfg t ht o y h
 
 /-- **C05 (soundness, composite types).** For every type built from the scalar kinds, `Any`, `Optional`, list / set /
-frozenset / deque, variadic tuples, dict-like types and dataclasses, nested to any depth (`Frag`), for **every** JSON
-input and any travelling config: whatever the default engine returns is an instance of the annotation (`Sound`) —
-containers of the exact kind whose elements / keys / values are sound, dataclass instances with exactly the declared
-fields in order, each holding a sound loaded value, the captured catch-all dictionary, or the field's declared default /
-`__post_init__` value. By induction over the type; the dataclass case goes through the key loop
-(`loadKeysWith_sound`), junk inputs (`loadJunkKeys_sound`) and the constructor step (`buildFields_origin`).
-Outside the fragment: `Union` (recorded findings), fixed-length tuples (recorded finding), NamedTuple / TypedDict, the
-`None` annotation (recorded finding). -/
+frozenset / deque, variadic tuples, fixed-length tuples none of whose members accepts `None` (then the element count is
+exact), dict-like types, TypedDict classes, `Union`s (of any members of the fragment, tagged dataclasses and `None`) and
+dataclasses, nested to any depth (`Frag`), for **every** JSON input and any travelling config: whatever the default engine
+returns is an instance of the annotation (`Sound`) — containers of the exact kind whose elements / keys / values are
+sound; tuples of exactly the declared length, position by position; TypedDict results holding only declared keys with
+sound values and every required key; a Union result sound for one of the declared members (or `None` when `None` is
+declared); dataclass instances with exactly the declared fields in order, each holding a sound loaded value, the captured
+catch-all dictionary, or the field's declared default / `__post_init__` value. By induction over the type; the
+dataclass case goes through the key loop (`loadKeysWith_sound`), junk inputs (`loadJunkKeys_sound`) and the constructor
+step (`buildFields_origin`); the Union case shows that whatever either phase of the Union parser returns was produced by
+the loader of one declared member (`loadUnionTry_origin`, `loadTagged_origin`).
+Outside the fragment: fixed-length tuples with `None`-accepting members (recorded finding `short-tuple-with-optional`),
+NamedTuple, the `None` annotation outside a Union (recorded finding). -/
 theorem C05_sound (std : Std) (cfg : Option MetaCfg) (t : Ty) (hf : Frag t) (o : JVal) (y : PyVal)
     (h : loadD std cfg t o = .ok y) : Sound t y :=
   sound std cfg t hf o y h
@@ -49,6 +54,37 @@ theorem C05_sound_example :
     simp only [List.mem_cons, List.not_mem_nil, or_false] at hq
     subst hq
     exact Frag.scalar _ rfl
+
+/-- non-vacuity of the Union / tuple / TypedDict cases: `Union[int, list[str], Tagged, None]`, `tuple[int, str]` and a
+TypedDict with a required and an optional key are in the fragment -/
+theorem C05_sound_example_union :
+    Frag (.union [.int, .seq .list .str, .cls { name := "T".toList, cmeta := some { tag := some "t".toList }, fields := [{ name := "a".toList }] } [("a".toList, .tuple [.int, .str])], .none]) ∧
+    Frag (.typeddict "TD".toList [("k".toList, .int, true), ("opt".toList, .optional .str, false)]) := by
+  constructor
+  · refine Frag.union _ ?_
+    intro t ht hn
+    simp only [List.mem_cons, List.not_mem_nil, or_false] at ht
+    rcases ht with rfl | rfl | rfl | rfl
+    · exact Frag.scalar _ rfl
+    · exact Frag.seq _ _ (Frag.scalar _ rfl)
+    · refine Frag.cls _ _ ?_
+      intro p hp
+      simp only [List.mem_cons, List.not_mem_nil, or_false] at hp
+      subst hp
+      refine Frag.tuple _ (by simp) ?_ ?_
+      · intro t ht
+        simp only [List.mem_cons, List.not_mem_nil, or_false] at ht
+        rcases ht with rfl | rfl <;> rfl
+      · intro t ht
+        simp only [List.mem_cons, List.not_mem_nil, or_false] at ht
+        rcases ht with rfl | rfl <;> exact Frag.scalar _ rfl
+    · simp [isNoneArg] at hn
+  · refine Frag.typeddict _ _ (by decide) ?_
+    intro f hf
+    simp only [List.mem_cons, List.not_mem_nil, or_false] at hf
+    rcases hf with rfl | rfl
+    · exact Frag.scalar _ rfl
+    · exact Frag.optional _ (Frag.scalar _ rfl)
 
 /-- After the repair (fix: 461d34c) a Union without `None` rejects `null` instead of passing it through. -/
 theorem C05_union_rejects_none (std : Std) (cfg : Option MetaCfg) :
